@@ -32,7 +32,9 @@ func (v *Vibranium) newTask(ctx context.Context, name string, verbose bool) *tas
 		log.WithFunc("vibranium.newTask").WithField("name", name).Debug(ctx, "task added")
 	}
 	v.counter.Add(1)
+	v.taskMu.Lock()
 	v.TaskNum++
+	v.taskMu.Unlock()
 	return &task{
 		v:       v,
 		name:    name,
@@ -49,7 +51,9 @@ func (t *task) done() {
 		log.WithFunc("vibranium.done").WithField("name", t.name).Debug(t.context, "task done")
 	}
 	t.v.counter.Done()
+	t.v.taskMu.Lock()
 	t.v.TaskNum--
+	t.v.taskMu.Unlock()
 }
 
 // Wait for all tasks done
